@@ -121,7 +121,7 @@ func execKeyed(f []string) zv.Out {
 	}
 	ccfg, scfg := mkConfigs(c)
 	var rawC, rawS net.Conn
-	r := tlsrig.Handshake(ccfg, scfg, tlsrig.Opts{KeepOpen: true, Timeout: 2 * time.Second,
+	r := tlsrig.Handshake(ccfg, scfg, tlsrig.Opts{KeepOpen: true, Timeout: wd(2 * time.Second),
 		WrapClient: func(n net.Conn) net.Conn { rawC = n; return n },
 		WrapServer: func(n net.Conn) net.Conn { rawS = n; return n }})
 	closeBoth := func() {
@@ -178,14 +178,14 @@ func execKeyed(f []string) zv.Out {
 	go func() { wg.Wait(); close(done) }()
 	select {
 	case <-done:
-	case <-time.After(400 * time.Millisecond):
+	case <-time.After(wd(400 * time.Millisecond)):
 		o.Tags = append(o.Tags, "data:stalled-until-close")
 	}
 	closeBoth()
 	select {
 	case <-done:
-	case <-time.After(5 * time.Second):
-		o.Viol = "Read did not return within 5 s after both transports were closed"
+	case <-time.After(wd(5 * time.Second)):
+		o.Viol = timingViol(fmt.Sprintf("Read did not return within %v after both transports were closed", wd(5*time.Second)))
 		return o
 	}
 	close(panics)
@@ -237,8 +237,8 @@ func execKeyed(f []string) zv.Out {
 	go func() { wg2.Wait(); close(d2) }()
 	select {
 	case <-d2:
-	case <-time.After(8 * time.Second):
-		viol = append(viol, "Close did not return within 8 s")
+	case <-time.After(wd(8 * time.Second)):
+		viol = append(viol, timingViol(fmt.Sprintf("Close did not return within %v", wd(8*time.Second))))
 	}
 	close(panics2)
 	for p := range panics2 {
